@@ -171,3 +171,42 @@ func HarnessC06Nested() {
 	_ = AgainstSchema(&s, d, reg)
 	verifReach("end")
 }
+
+// HarnessC06KeywordNames: member names and root paths that coincide with schema keywords
+// (the object validator inspects the last segments of its path).
+func HarnessC06KeywordNames() {
+	words := []string{"default", "properties", "example", "examples", "items", "type", "$ref", ""}
+	name := words[verifChoose(len(words))]
+	root := []string{"", "default", "properties", "example", "a.default", "properties.properties"}[verifChoose(6)]
+	inner := spec.Schema{}
+	switch verifChoose(3) {
+	case 0:
+		inner.Type = spec.StringOrArray{"object"}
+	case 1:
+		inner.Type = spec.StringOrArray{"array"}
+	}
+	s := spec.Schema{}
+	s.Properties = map[string]spec.Schema{name: inner}
+	var v interface{}
+	switch verifChoose(4) {
+	case 0:
+		v = map[string]interface{}{"a": 1.0, "items": []interface{}{}, "type": "array"}
+	case 1:
+		v = map[string]interface{}{}
+	case 2:
+		v = []interface{}{map[string]interface{}{"type": "array"}}
+	default:
+		v = "x"
+	}
+	d := map[string]interface{}{name: v}
+	var opts []Option
+	if verifBool() {
+		opts = append(opts, SwaggerSchema(true))
+	}
+	if verifBool() {
+		opts = append(opts, WithRecycleValidators(true))
+	}
+	res := NewSchemaValidator(&s, nil, root, &verifRegistry{}, opts...).Validate(d)
+	verifAssert(res != nil, "a-result-is-returned")
+	verifReach("end")
+}
